@@ -339,6 +339,19 @@ def traced(variant, nens, nproc, mode, level, x):
     return out, recs
 
 
+_REC = {'real': None, 'dir': None}
+
+
+def _rec_member(*a, **k):
+    """module-level (picklable by reference for Pool.starmap) recorder around emd.sift._sift_with_noise; forked workers inherit _REC"""
+    import tempfile
+    r = _REC['real'](*a, **k)
+    fd_, nm = tempfile.mkstemp(suffix='.npy', dir=_REC['dir'])
+    os.close(fd_)
+    np.save(nm, np.asarray(r))
+    return r
+
+
 def replay(w):
     import emd
     import warnings
@@ -372,28 +385,39 @@ def replay(w):
                 return True, 'ensemble_sift with zero noise (nensembles=%d, nprocesses=%d, %s) differs from the classic sift with the same cap: max diff %.3g' % (ne, npr, mode, np.abs(out - ref).max() if out.shape == ref.shape else -1)
             return False, 'ok'
         if kind == 'mean':
-            ne, mode = w['nensembles'], w['noise_mode']
+            # the ensemble result against its own members: every member decomposition is recorded (worker processes inherit the
+            # wrapper through fork and write their result to a file of their own), then result == mean over ALL members of the
+            # components every member has, never more than max_imfs
+            import tempfile, shutil, glob, os as _os
+            ne, mode, npr = w['nensembles'], w['noise_mode'], w.get('nprocesses', 1)
             S = emd.sift
             real = S._sift_with_noise
-            members = []
+            d = tempfile.mkdtemp(prefix='c08members')
 
-            def rec(*a, **k):
-                r = real(*a, **k)
-                members.append(r.copy())
-                return r
-            S._sift_with_noise = rec
+            _REC['real'], _REC['dir'] = real, d
+            S._sift_with_noise = _rec_member
             try:
-                np.random.seed(w.get('seed', 3))
-                out = S.ensemble_sift(x, nensembles=ne, nprocesses=1, noise_mode=mode, ensemble_noise=w.get('level', 0.2), max_imfs=2)
+                t = np.linspace(0, 1, 400)
+                xs = np.sin(2 * np.pi * 11 * t) * (1 + 0.5 * t) + 0.6 * np.sin(2 * np.pi * 3 * t + 0.5) + 0.4 * t
+                np.random.seed(w.get('seed', 0))
+                try:
+                    out = S.ensemble_sift(xs, nensembles=ne, nprocesses=npr, noise_mode=mode, ensemble_noise=w.get('level', 0.5), max_imfs=w.get('cap'))
+                except Exception as ex:
+                    return True, 'ensemble_sift(nensembles=%d, noise_mode=%s, max_imfs=%s, seed %s) raised %s: %s' % (ne, mode, w.get('cap'), w.get('seed', 0), type(ex).__name__, str(ex)[:160])
+                members = [np.load(f) for f in sorted(glob.glob(_os.path.join(d, '*.npy')))]
             finally:
                 S._sift_with_noise = real
-            # nprocesses=1 still uses a worker process: members are not visible in the parent; recompute with the same seed instead
-            if not members:
-                return False, 'members not observable in the parent (pool worker) - covered by the unbounded unit'
-            exp = np.mean([m[:, :2] for m in members], axis=0)
-            if not np.allclose(out, exp):
-                return True, 'ensemble result is not the per-IMF mean over the members'
-            return False, 'ok'
+                shutil.rmtree(d, ignore_errors=True)
+            if len(members) != ne:
+                return True, '%d member decompositions recorded for nensembles=%d' % (len(members), ne)
+            counts = [m.shape[1] for m in members]
+            k = min(counts + ([w['cap']] if w.get('cap') else []))
+            if out.shape != (len(xs), k):
+                return True, 'ensemble of members with %s IMFs (max_imfs=%s) has shape %s, expected %d components (those every member contains)' % (counts, w.get('cap'), out.shape, k)
+            exp = np.mean([m[:, :k] for m in members], axis=0)
+            if not np.allclose(out, exp, rtol=1e-10, atol=1e-12):
+                return True, 'ensemble result is not the per-IMF mean over all %d members (member IMF counts %s): max diff %.3g' % (ne, counts, np.abs(out - exp).max())
+            return False, 'ok (member IMF counts %s)' % counts
     return False, 'unknown witness kind'
 
 
@@ -416,6 +440,19 @@ def refute(tier, seed, emit):
                 ok, msg = replay(w)
                 if ok:
                     emit.violation('every-member-has-its-own-noise-realisation:complete_ensemble_sift', w, msg)
+        if emit.full:
+            return
+    seeds = (0, 4, 7) if tier == 'quick' else range(12)       # (seed 4: most members have MORE IMFs than the shortest one)
+    emit.scope('ensemble_sift(nensembles=6, ensemble_noise=0.5) on a 400-sample signal x seeds %s x nprocesses {1, 3} x max_imfs {None, 3} x modes: every member decomposition recorded (also in forked workers); result = per-IMF mean over ALL members of the components every member has; non-trivial = members with different numbers of IMFs' % list(seeds))
+    for sd in seeds:
+        for npr in (1, 3):
+            for cap in (None, 3):
+                for mode in (('single', 'flip') if sd == 0 else ('single',)):
+                    w = {'kind': 'mean', 'nensembles': 6, 'nprocesses': npr, 'noise_mode': mode, 'seed': int(sd), 'cap': cap, 'level': 0.5}
+                    ok, msg = replay(w)
+                    emit.case(('mean', sd, npr, cap, mode), nontrivial=('counts' in msg and len(set(msg.split('counts')[-1].strip(' ]):[').replace(' ', '').split(','))) > 1), contract='ensemble_sift')
+                    if ok:
+                        emit.violation('result-is-the-per-imf-mean-over-all-members', w, msg)
         if emit.full:
             return
     emit.scope('zero noise: ensemble_sift == classic sift with the same cap, nensembles {1,3} x nprocesses {1,2} x modes x caps {1,2,3}')
